@@ -22,11 +22,15 @@ TokSet ==
     [] Toks = "wide" -> { <<97>>, <<40>>, <<40,63,58>>, <<41>>, <<124>>, <<42>>, <<63>>, <<123,50,125>>,
                           <<123,49,44>>, <<125>>, <<91>>, <<93>>, <<94>>, <<45>>, <<92,49>>, <<92>>, <<36>>, <<46>>,
                           <<92,100>>, <<92,112,123,76,125>>, <<92,36>>, <<123>>, <<44>>, <<48>>,
-                          <<123,49,125>>, <<123,48,125>>, <<123,49,44,49,125>> }
+                          <<123,49,125>>, <<123,48,125>>, <<123,49,44,49,125>>, <<92,114>>, <<92,116>> }
     [] Toks = "class" -> { <<91>>, <<93>>, <<94>>, <<45>>, <<97>>, <<98>>, <<92,100>>, <<92,93>>, <<92,45>>, <<45,91>>,
                            <<92,49>>, <<92>> }
     [] Toks = "xws" -> { <<97>>, <<91>>, <<93>>, <<92>>, <<92, 92>>, <<32>>, <<10>>, <<123, 49, 44>>, <<50, 125>>, <<45>>, <<94>>,
                          <<92, 100>> }
+    [] Toks = "bref10" -> LET nest(n) == [k \in 1..n |-> 40] \o <<97>> \o [k \in 1..n |-> 41] IN      \* ((((((((((a)))))))))) : ten groups
+                          { nest(10), nest(9), <<92,49>>, <<92,57>>, <<48>>, <<49>> }               \* ... then \1 0 / \10 / \9 1 ...
+    [] Toks = "grp" -> { <<97>>, <<40>>, <<40,63,58>>, <<41>>, <<92,49>>, <<92,50>>, <<124>> }   \* groups, back-references: which \N is legal where
+    [] Toks = "paren" -> { <<40>>, <<41>>, <<97>>, <<91>>, <<92>> }        \* literals full of unbalanced brackets (flag q: all literal)
     [] Toks = "ab" -> { <<97>>, <<98>>, <<40>> }                  \* literals that overlap themselves: aab, abab, ((a
     [] Toks = "meta" -> { <<97>>, <<98>>, <<40>>, <<41>>, <<91>>, <<93>>, <<123>>, <<125>>, <<92>>, <<63>>, <<42>>,
                           <<43>>, <<124>>, <<46>>, <<94>>, <<36>>, <<32>>, <<9>> }
